@@ -170,6 +170,12 @@ func (g *GhostDB) recType(name string) types.Type {
 func (g *GhostDB) dbBuiltin(env *SpecEnv, st *State, name string, args []TV) (TV, bool) {
 	x := g.x
 	boolT := types.Typ[types.Bool]
+	if tv, ok := g.linBuiltin(env, st, name, args); ok {
+		return tv, true
+	}
+	if _, isView := viewSpecs[name]; isView && len(args) == 1 {
+		return g.viewOf(env, st, name, args[0]), true
+	}
 	switch name {
 	case "json":
 		if len(args) != 1 {
